@@ -293,7 +293,8 @@ SPEC = {
              'changed by replace_inputs / add_gate / emplace_gate of non-bench types (also under the label of a gate renamed away '
              'earlier) / add_circuit / rename_gate, then converted '
              'again (same post-conditions against the netlist read back just before the call). Non-trivial: >=2 gates were '
-             'rewritten (reconvert: a non-bench gate was re-introduced after an earlier conversion).'),
+             'rewritten (reconvert: a non-bench gate was re-introduced after an earlier conversion).'
+             ' Added during the build: the public per-gate convert_gate, explicit block inputs, the empty label, and a conversion declined for lack of inputs that is repeated after an input was added.'),
     'assumptions': ['reference tables from vlib/refsem.py; uuid4 replaced by a seeded stream'],
     'subs': [Sub('bench', cases, check_bench, {'quick': 3000, 'thorough': 200000}),
              Sub('reconvert', reconvert_cases, check_reconvert, {'quick': 1200, 'thorough': 60000})],
